@@ -99,3 +99,36 @@ pub fn run3(k: &str, a: &Value) -> Option<Value> {
         _ => return None,
     })
 }
+
+pub fn run4(k: &str, a: &Value) -> Option<Value> {
+    use engeom::common::Intersection;
+    use engeom::geom2::{HasBounds2, Segment2};
+    fn bb(b: &engeom::geom2::Aabb2) -> Value {
+        json!({"mins": [fo(b.mins.x), fo(b.mins.y)], "maxs": [fo(b.maxs.x), fo(b.maxs.y)]})
+    }
+    Some(match k {
+        "line_circle" => {
+            let c = circle(&a["c"]);
+            if a["kind"].as_str().unwrap() == "ray" {
+                let r = parry2d_f64::query::Ray::new(p2(&a["o"]), v2(&a["d"]));
+                json!({"ts": engeom::verif_hooks::intersection_line_circle(&r, &c).iter().map(|v| fo(*v)).collect::<Vec<_>>()})
+            } else {
+                let s = Segment2::try_new(p2(&a["o"]), p2(&a["b"])).unwrap();
+                let pts = c.intersection(&s);
+                json!({"ts": engeom::verif_hooks::intersection_line_circle(&s, &c).iter().map(|v| fo(*v)).collect::<Vec<_>>(), "points": pts.iter().map(po).collect::<Vec<_>>()})
+            }
+        }
+        "arc3" => {
+            let arc = Arc2::three_points(p2(&a["p0"]), p2(&a["p1"]), p2(&a["p2"]));
+            json!({"center": po(&arc.center()), "r": fo(arc.radius()), "angle0": fo(arc.angle0), "angle": fo(arc.angle), "start": po(&arc.start()), "end": po(&arc.end()),
+                   "length": fo(arc.length()), "mid": po(&arc.point_at_fraction(0.5)), "aabb": bb(arc.aabb())})
+        }
+        "arc_aabb" => {
+            let cc = fv(&a["c"]);
+            let arc = Arc2::circle_angles(Point2::new(cc[0], cc[1]), cc[2], f(&a["angle0"]), f(&a["angle"]));
+            json!({"aabb": bb(arc.aabb()), "start": po(&arc.start()), "end": po(&arc.end()), "length": fo(arc.length()),
+                   "at_half_length": po(&arc.point_at_length(arc.length() * 0.5)), "at_half_fraction": po(&arc.point_at_fraction(0.5)), "circle_aabb": bb(circle(&a["c"]).aabb())})
+        }
+        _ => return None,
+    })
+}
